@@ -19,20 +19,41 @@ def Dim.add (a b : Dim) : Dim := List.zipWith (· + ·) a b
 def Dim.sub (a b : Dim) : Dim := List.zipWith (· - ·) a b
 def Dim.smul (k : Rat) (a : Dim) : Dim := a.map (k * ·)
 
+/-- pint compares `Unit`s *symbolically* (its `UnitsContainer`: canonical unit name ->
+    exponent).  `Array.to`'s identity shortcut and the Vector constructor's unit check use
+    that comparison, so the model carries the container next to (factor, dim). Normal form:
+    sorted by name, no zero exponents. -/
+abbrev Sym := List (String × Rat)
+
+def Sym.insertAdd (s : Sym) (n : String) (e : Rat) : Sym :=
+  match s with
+  | [] => if e == 0 then [] else [(n, e)]
+  | (m, f) :: rest =>
+    if n == m then (if f + e == 0 then rest else (m, f + e) :: rest)
+    else if n < m then (if e == 0 then s else (n, e) :: s)
+    else (m, f) :: Sym.insertAdd rest n e
+
+def Sym.mul (a b : Sym) : Sym := b.foldl (fun acc p => Sym.insertAdd acc p.1 p.2) a
+def Sym.smul (k : Rat) (a : Sym) : Sym := if k == 0 then [] else a.map fun p => (p.1, k * p.2)
+
 structure U where
   factor : Rat
   dim : Dim
+  sym : Sym := []
   deriving DecidableEq, Repr, Inhabited
 
 namespace U
 
-def one : U := ⟨1, Dim.zero⟩
-def mul (a b : U) : U := ⟨a.factor * b.factor, Dim.add a.dim b.dim⟩
-def div (a b : U) : U := ⟨a.factor / b.factor, Dim.sub a.dim b.dim⟩
-def inv (a : U) : U := ⟨1 / a.factor, Dim.smul (-1) a.dim⟩
-def powInt (a : U) (k : Int) : U := ⟨a.factor ^ k, Dim.smul (k : Rat) a.dim⟩
+def one : U := ⟨1, Dim.zero, []⟩
+def mul (a b : U) : U := ⟨a.factor * b.factor, Dim.add a.dim b.dim, Sym.mul a.sym b.sym⟩
+def div (a b : U) : U := ⟨a.factor / b.factor, Dim.sub a.dim b.dim, Sym.mul a.sym (Sym.smul (-1) b.sym)⟩
+def inv (a : U) : U := ⟨1 / a.factor, Dim.smul (-1) a.dim, Sym.smul (-1) a.sym⟩
+def powInt (a : U) (k : Int) : U := ⟨a.factor ^ k, Dim.smul (k : Rat) a.dim, Sym.smul (k : Rat) a.sym⟩
 def wf (a : U) : Prop := 0 < a.factor ∧ a.dim.length = ndims
 def isDimensionless (a : U) : Bool := a.dim.all (· == 0)
+
+/-- pint's `Unit.__eq__`: symbolic -/
+def same (a b : U) : Bool := a.sym == b.sym
 
 /-- Two units can be converted into each other iff their dimension vectors agree. -/
 def convertible (a b : U) : Bool := a.dim == b.dim
@@ -68,16 +89,21 @@ def ratCbrt? (q : Rat) : Option Rat :=
   | _, _ => none
 
 def U.sqrt? (a : U) : Option U :=
-  (ratSqrt? a.factor).map fun f => ⟨f, Dim.smul (1/2) a.dim⟩
+  (ratSqrt? a.factor).map fun f => ⟨f, Dim.smul (1/2) a.dim, Sym.smul (1/2) a.sym⟩
 def U.cbrt? (a : U) : Option U :=
-  (ratCbrt? a.factor).map fun f => ⟨f, Dim.smul (1/3) a.dim⟩
+  (ratCbrt? a.factor).map fun f => ⟨f, Dim.smul (1/3) a.dim, Sym.smul (1/3) a.sym⟩
 
 def U.toJson (u : U) : Json :=
-  Json.mkObj [("f", ratToJson u.factor), ("d", ratsToJson u.dim)]
+  Json.mkObj [("f", ratToJson u.factor), ("d", ratsToJson u.dim),
+    ("s", Json.arr (u.sym.map fun p => Json.arr #[Json.str p.1, ratToJson p.2]).toArray)]
 
 def U.fromJson? (j : Json) : Option U := do
   let f ← getRat? j "f"
   let d ← getRats? j "d"
-  if d.length == ndims && decide (0 < f) then some ⟨f, d⟩ else none
+  let sj ← getArr? j "s"
+  let sym ← sj.mapM fun (e : Json) => match e with
+    | .arr #[.str n, x] => (jsonToRat? x).map fun q => (n, q)
+    | _ => none
+  if d.length == ndims && decide (0 < f) then some ⟨f, d, sym⟩ else none
 
 end Osyris
